@@ -106,7 +106,7 @@ theorem run_flatten (L : M.Lawful Inv) (c : GConn ε σ) (hI : Inv c.st) (d : By
           exact Or.inr ⟨rfl, rfl, by simp, rfl, rfl⟩
         | incomplete =>
           have hc := parse_append_incomplete L hI hp (d2 :: rest).flatten
-          have hI' := (parse_inv L hI hp).1
+          have hI' := (parse_inv L hI hp).1 rfl
           have h1 : M.deliver c d = { st := s', pending := (c.pending ++ d).drop n, total := c.total + n, verdict := .more } := by
             simp [deliver, hv, hp]
           rw [h1]
